@@ -254,3 +254,40 @@ func vfH_C13_terminate_tls() {
 		vfrt.Assert(target.Out.String() == "hello", "terminate-tls/tunnel-carries-the-client-bytes")
 	}
 }
+
+//vf:assume C13-upgrade-teardown: a GET answered 101 Switching Protocols whose body is the connection dialled to the origin (as http.Transport hands it over: an embedded io.ReadWriteCloser); the tunnel carries 2 bytes each way and both sides finish: the dialled connection is closed by the time the client connection is done (the dialer's active gauge follows Close) and the exchange is reported complete once
+
+type vfUpgradeBody struct {
+	_ *bufio.Reader
+	io.ReadWriteCloser
+}
+
+//vf:harness property=C13 nopanic reach=upgrade-teardown steps=8000000
+func vfH_C13_upgrade_teardown() {
+	cfg := HTTPProxyConfig{}
+	cfg.Name = "fw"
+	cfg.ProxyLocalhost = AllowProxyLocalhost
+	hp := vfNewHTTPProxy(cfg)
+	rt := hp.transport.(*vfRoundTripper)
+	target := martian.NewVfConn([]byte("dn"))
+	rt.respond = func(req *http.Request, n int) (*http.Response, error) {
+		return &http.Response{StatusCode: 101, Status: "101 Switching Protocols", ProtoMajor: 1, ProtoMinor: 1,
+			Header: http.Header{"Connection": {"Upgrade"}, "Upgrade": {"websocket"}}, Body: &vfUpgradeBody{ReadWriteCloser: target}, Request: req}, nil
+	}
+	reads, wrotes := 0, 0
+	hp.proxy.Trace = &martian.ProxyTrace{
+		ReadRequest: func(info martian.ReadRequestInfo) {
+			if info.Err == nil && info.Req != nil {
+				reads++
+			}
+		},
+		WroteResponse: func(info martian.WroteResponseInfo) { wrotes++ },
+	}
+	client := martian.NewVfConn([]byte("GET http://example.com/ws HTTP/1.1\r\nHost: example.com\r\nConnection: Upgrade\r\nUpgrade: websocket\r\n\r\nup"))
+	vfrt.Reach("upgrade-teardown")
+	martian.VfServeConn(hp.proxy, client)
+	vfrt.Assert(target.Out.String() == "up", "upgrade-teardown/tunnel-ran")
+	vfrt.Assert(client.Closed >= 1, "upgrade-teardown/client-connection-finished")
+	vfrt.Assert(target.Closed >= 1, "upgrade-teardown/dialled-connection-closed-after-the-tunnel")
+	vfrt.Assert(reads == 1 && wrotes == 1, "upgrade-teardown/exchange-reported-complete-once")
+}
